@@ -96,7 +96,7 @@ def real_cfg(cfgd):
             elif k == "os_script_name":
                 pass
             else:
-                c.set(k, v)
+                c.set(k, vlib.respell_setting(k, v, key))
         st["cfgs"][key] = c
     return c
 
